@@ -334,7 +334,10 @@ class Inliner:
         if h is None or isinstance(h, ast.Lambda):
             return None
         if self.expr_body(h) is not None:
-            return None     # handled by substitution
+            b = self.bind(h, call, recv)
+            if b is None or not b[0]:
+                return None     # handled by substitution
+            # arguments that are not plain names: bound to fresh locals first (statement-level inlining)
         body = self.body_of(h, call, recv, make)
         if body is None:
             return None
